@@ -114,6 +114,19 @@ def r18_2(ctx: Ctx) -> RuleResult:
     mod, gd, subs = cli_model(ctx)
     from sa.flow import parent_map
 
+    # an option of the main parser is not declared again by a sub-command: argparse copies the sub-parser's
+    # default over the value that was parsed before the sub-command name (`json --pretty path ...` would print
+    # compact JSON)
+    for name, s in sorted(subs.items()):
+        dup = sorted(set(s["dests"]) & set(gd))  # type: ignore[arg-type,call-overload]
+        fn0: FuncInfo = s["fn"]  # type: ignore[assignment]
+        if dup:
+            rr.bad(fn0, s["dests"][dup[0]], f"the sub-command `{name}` declares the option `{dup[0]}` again, which the main parser already "  # type: ignore[index]
+                   "has: the sub-parser's default then replaces the value given before the sub-command name, so the global option is ignored",
+                   construct=f"{name}: option {dup[0]} shadows the global option")
+        else:
+            rr.ok(fn0.loc(), f"{name}: no option of the main parser is declared again")
+
     for name, s in sorted(subs.items()):
         handler: FuncInfo = s["handler"]  # type: ignore[assignment]
         dests: Dict[str, ast.Call] = s["dests"]  # type: ignore[assignment]
